@@ -7,6 +7,8 @@ use std::io::{self, IsTerminal as _};
 use self::argument::Argument;
 use self::stdin::Stdin;
 use self::terminal::Terminal;
+#[cfg(lace_verif)]
+pub use self::terminal::Terminal as VerifTerminal;
 use crate::{dprint, dprintln};
 
 /// Must be ASCII to ensure `.len() == .chars().count()`
@@ -41,6 +43,14 @@ impl CommandReader {
 impl Stream {
     pub fn new() -> Self {
         let stdin = io::stdin();
+        #[cfg(lace_verif)]
+        match crate::verif::transport() {
+            Some(crate::verif::Transport::Stdin) => return Self::Stdin(Stdin::from(stdin)),
+            Some(crate::verif::Transport::Terminal(history)) => {
+                return Self::Terminal(Terminal::verif_new(history))
+            }
+            None => (),
+        }
         if stdin.is_terminal() {
             Self::Terminal(Terminal::new())
         } else {
